@@ -122,7 +122,10 @@ def build_databases(root):
                    entries=[mk.entry(f'q-e{i}', f'q{i}', 'n', senses=[mk.sense(f'q-s{i}', f'q-ss{i}')]) for i in range(8)])
     pl = mk.lexicon('p', '1', 'es', synsets=[mk.synset(f'p-ss{i}', 'n', f'i{i + 20}') for i in (0, 1, 5)],
                     entries=[mk.entry(f'p-e{i}', f'p{i}', 'n', senses=[mk.sense(f'p-s{i}', f'p-ss{i}')]) for i in (0, 1, 5)])
-    env.add_resource(mk.resource([q, pl], '1.3'))
+    # a second queried lexicon: inferred synsets reached from p:1 and from p2:1 are the same nodes
+    p2 = mk.lexicon('p2', '1', 'es', synsets=[mk.synset('p2-ss1', 'n', 'i21'), mk.synset('p2-ss6', 'n', 'i26')],
+                    entries=[mk.entry(f'p2-e{i}', f'r{i}', 'n', senses=[mk.sense(f'p2-s{i}', f'p2-ss{i}')]) for i in (1, 6)])
+    env.add_resource(mk.resource([q, pl, p2], '1.3'))
     out['inf'] = d
     env.close_pool()
     return out
@@ -185,6 +188,20 @@ def items(dirs):
                             r.append(['wn.Error', str(e)])
                     return r
                 add(f'inf:taxonomy+similarity({a},{b},{simr})', 'inf', inf_item)
+    for simr in (False, True):
+        def inf2_item(s=simr):
+            w = W(lexicon='p:1 p2:1', expand='q:1')
+            r = []
+            for x in (w.synset('p-ss0'), w.synset('p2-ss1'), w.synset('p2-ss6')):
+                r.append(x.hypernym_paths(simulate_root=s))
+                for y in (w.synset('p-ss0'), w.synset('p2-ss1'), w.synset('p-ss5')):
+                    for f in (tx.common_hypernyms, tx.lowest_common_hypernyms, tx.shortest_path, sim.wup, sim.path):
+                        try:
+                            r.append(f(x, y, simulate_root=s))
+                        except wn.Error as e:
+                            r.append(['wn.Error', str(e)])
+            return r
+        add(f'inf:two-queried-lexicons({simr})', 'inf', inf2_item)
     for i in (0, 1, 9):
         add(f'tax:hypernym_paths({i})', 'tax', lambda i=i: (lambda w: [ss(w, i).hypernym_paths(), ss(w, i).min_depth(), ss(w, i).max_depth()])(W(lexicon='t:1')))
     add('tax:roots/leaves/depth', 'tax', lambda: (lambda w: [tx.roots(w), tx.leaves(w), tx.taxonomy_depth(w, 'n'), tx.roots(w, pos='n')])(W(lexicon='t:1')))
